@@ -443,3 +443,22 @@ def float_correspondence(tag, cases):
         for k, p_ in zip(sh_, prs):
             out[k] = p_[0]
     return out
+
+
+# ------------------------------------------------------------------ catalogue coverage
+RUST_NAME = {"Echo": "Echo", "Const": "Constant", "Add": "Add", "Sub": "Subtract", "Mul": "Multiply", "Div": "Divide", "Tanh": "Tanh", "Gte": "GTE", "Lte": "LTE",
+             "Drawdown": "Drawdown", "LnReturn": "LnReturn", "WRolling": "WelfordRolling", "Sma": "Sma", "Ema": "Ema", "Cumulative": "Cumulative", "Min": "Min",
+             "Max": "Max", "Roc": "Roc", "Welford": "WelfordOnline", "Vst": "Vst", "Vsct": "Vsct", "Hln": "HLNormalizer", "Entropy": "BinaryEntropy",
+             "Cog": "CenterOfGravity", "Cti": "CorrelationTrendIndicator", "Net": "NoiseEliminationTechnology", "Rsi": "Rsi", "MyRsi": "MyRSI", "Alma": "Alma",
+             "Pfe": "PolarizedFractalEfficiency", "Cyber": "CyberCycle", "Ss": "SuperSmoother", "Roofing": "RoofingFilter", "TrendFlex": "TrendFlex",
+             "ReFlex": "ReFlex", "Laguerre": "LaguerreFilter", "Lrsi": "LaguerreRSI", "Eft": "EhlersFisherTransform"}
+
+def catalogue_gaps():
+    """public View implementations of /repo that the model / executor do not cover (and vice versa)"""
+    exported = set()
+    for m in ("pure_functions", "rolling", "sliding_windows"):
+        f = os.path.join(REPO, "src", m, "mod.rs")
+        if os.path.exists(f):
+            exported |= set(re.findall(r"pub use [a-z_0-9]+::([A-Za-z0-9_]+);", open(f).read()))
+    known = set(RUST_NAME.values())
+    return sorted(exported - known), sorted(known - exported)
